@@ -52,6 +52,12 @@ func c11Faults() []c11Fault {
 		{"++ on a number's member", func() Expr { return &Postfix{"++", Mem(V("numv"), "k")} }, false},
 		{"copy a function", func() Expr { return Arr_(V("printf")) }, false},
 		{"json of a cycle", func() Expr { return CallE(V("json"), V("cyc")) }, false},
+		{"fault inside a nested array pattern", func() Expr {
+			return &MatchExpr{Subj: Arr_(Arr_(N("1")), N("2")), Cases: []MatchCase{{Pats: []Expr{Arr_(N("1"), N("2"))}, Body: S("pair")}, {Pats: []Expr{V("x")}, Body: S("other")}}}
+		}, false},
+		{"fault in the second alternative of a case", func() Expr {
+			return &MatchExpr{Subj: &ObjLit{}, Cases: []MatchCase{{Pats: []Expr{Arr_(V("q")), N("1")}, Body: S("one")}, {Pats: []Expr{V("x")}, Body: S("other")}}}
+		}, false},
 		{"benign number", func() Expr { return N("7") }, true},
 		{"benign string", func() Expr { return S("s") }, true},
 		{"benign array", func() Expr { return V("arrv") }, true},
